@@ -34,7 +34,8 @@ def _sprinkle(body: list[str], blank: int, comment: int, ind: str, cm: str) -> l
 
 def python(shape: dict, name: str):
     s = project("python", shape)
-    body: list[str] = [f'    attr_{i} = "v{i}"' for i in range(s["fill"])]
+    # every third fill line is code that BEGINS with another language's comment marker (a starred assignment)
+    body: list[str] = [(f'    *rest_{i}, last_{i} = "v{i}", "w{i}"' if i % 3 == 1 else f'    attr_{i} = "v{i}"') for i in range(s["fill"])]
     if s["ctor"]:
         body += ["    def __init__(self):", "        self.v = 0"]
     for i in range(s["pub"]):
@@ -63,7 +64,8 @@ def python(shape: dict, name: str):
 
 def typescript(shape: dict, name: str):
     s = project("typescript", shape)
-    body = [f'  field{i} = "v{i}";' for i in range(s["fill"])]
+    # every third field is an ECMAScript private field: the line begins with `#`
+    body = [(f'  #secret{i} = "v{i}";' if i % 3 == 1 else f'  field{i} = "v{i}";') for i in range(s["fill"])]
     for i in range(s["pub"]):
         body += [f"  pub{i}(): number {{ return 1; }}"]
     for i in range(s["stat"]):
@@ -78,7 +80,8 @@ def typescript(shape: dict, name: str):
 
 def rust(shape: dict, name: str, split: bool = False):
     s = project("rust", shape)
-    fields = [f"    f{i}: i64," for i in range(s["fill"])]
+    # every third field carries an attribute on its own line's start: the line begins with `#`
+    fields = [(f"    #[allow(dead_code)] f{i}: i64," if i % 3 == 1 else f"    f{i}: i64,") for i in range(s["fill"])]
     methods = [f"    pub fn pub_{i}(&self) -> i64 {{ 1 }}" for i in range(s["pub"])]
     privs = [f"    fn _priv_{i}(&self) -> i64 {{ 1 }}" for i in range(s["priv"])]
     struct_part = [f"struct {name} {{"] + fields + ["}", ""]
